@@ -24,3 +24,55 @@ def order_replay(define):
         return dict(reproduced=(rc == 1), output=out,
                     cmd='replay/orders_replay.c -D%s args=%s (real static function, #included .c)' % (define, ' '.join(map(str, args))))
     return f
+
+
+def _find(vals, suffix, default=0):
+    for k, (v, b) in vals.items():
+        if k.endswith(suffix):
+            return _int(v)
+    return default
+
+
+def scenario_sweep(src, candidates, budget_s=60, defines=(), stop=True):
+    """Run candidate argument lists against a native scenario driver until one reproduces."""
+    import time
+    t0 = time.time()
+    tried = 0
+    last = ''
+    for args in candidates:
+        if time.time() - t0 > budget_s:
+            break
+        rc, out = cvlib.native_run(src, args, defines=list(defines), timeout=20)
+        tried += 1
+        last = out
+        if rc == 'build-failed':
+            return dict(reproduced=False, output='replay build failed:\n' + out, cmd=src)
+        if rc not in (0, 'timeout'):
+            return dict(reproduced=True, output=out, cmd='%s %s  (exit %s; scenario %d of the sweep)' % (
+                os.path.relpath(src, VERIF), ' '.join(map(str, args)), rc, tried))
+    return dict(reproduced=False, output='%d scenarios run against the real library, none violated the oracle\n%s' % (tried, last[-600:]),
+                cmd=os.path.relpath(src, VERIF))
+
+
+def buffer_replay(isput):
+    def f(g, ob, vals, res):
+        src = os.path.join(VERIF, 'replay', 'buffer_scn.c')
+        cap = _find(vals, '.capacity', 10) or 10
+        init = _int(vals.get('cmv_init', ('5', None))[0])
+        big = 2 ** 64 - 1
+        cands = []
+        # first: the verifier's own numbers
+        lvl = _find(vals, '.level', 0)
+        cands.append([cap, isput, init, min(lvl, cap), 2, 1, 2, 1])
+        caps = [cap, 10, 1, big]
+        inits = [init, 10, 5, 1, 0, big - 2, big]
+        for c in caps:
+            for i in inits:
+                if isput and i == 0:
+                    continue
+                for l0 in (0, 5 if c >= 5 else 1, c if c < 100 else 7):
+                    for ds in ([3, 2], [1], [0], [c if c < 100 else 4, 1], [2, 2, 2]):
+                        for intr in (1, 0):
+                            cands.append([c, isput, i, min(l0, c), len(ds)] + ds + [intr])
+        return scenario_sweep(src, cands)
+    return f
